@@ -180,7 +180,7 @@ def norm_stmt(fname, sql):
     s = re.sub(r"\s+", " ", sql).strip()
     up = s.upper()
     store = fname[:-3] if fname.endswith(".db") else fname
-    if up in ("BEGIN", "COMMIT", "ROLLBACK"):
+    if up in ("BEGIN", "BEGIN IMMEDIATE", "COMMIT", "ROLLBACK"):
         return store, up
     w = up.split(" ", 1)[0]
     if w in ("SELECT", "PRAGMA"):
